@@ -1249,7 +1249,8 @@ MANIFEST = {
                   'to_increment_commands), LinSpaceVM.__init__/run and LinSpaceBuilder as a state machine (hold_voltage, with_repetition/'
                   'with_iteration/with_sequence split at the yield, to_program) are translated as well and proved equal to / refinements of '
                   'the model (C17_add_node_is_source, C17_to_increment_commands_is_source, C17_builder_is_source); C17_staircase_source_all: the '
-                  'staircase theorem on translated code only (builder, translator, VM), for sources with loop indices by name.  (5) refutation: the '
+                  'staircase theorem on translated code only (builder, translator, VM), for sources with loop indices by name; SimpleExpression '
+                  'arithmetic (operators + value) is modelled, translated and proved to keep the value of every expression tree.  (5) refutation: the '
                   'round-1 statement is false without the key-collision guard.  The model is tied to /repo on every run by the exact '
                   'correspondence check (real pipeline vs model vs independently unrolled default Loop program).',
     'level_note': 'Trusted: Coq kernel/vm_compute; harness rendering of source terms to templates (cross-checked against the '
@@ -1261,7 +1262,7 @@ MANIFEST = {
                   'inner_scope, how the templates drive the builder.  Repaired in /repo: count-1 repetition played twice, int '
                   'voltages (round 1); repetition entry state, zero-factor aliasing, register shared across depths, index rebinding '
                   'under a repetition, unused outputs in the hardware scaling (round 2); shadowed loop index -> AssertionError (round 3, '
-                  'a68b904).  No known finding left.',
+                  'a68b904); SimpleExpression.value iterated over the keys of its offsets (round 4, 0264c55).  No known finding left.',
     'technique': 'Coq proof over a hand-written executable model (builder, whole translator, VM, _transform_linspace_commands and the '
                  'increment kernel translated from source on every run and proved against it) + exact correspondence '
                  'check against the real pipeline',
